@@ -100,6 +100,43 @@ def shiftAt : List Nat → List Nat → (List Nat → Rat) → List Nat → Rat
 /-- value of a placed image at a canvas voxel: the image value if the voxel lies in the image, else 0 -/
 def Placed.at (p : Placed) (idx : List Nat) : Rat := shiftAt p.offset p.shape p.val idx
 
+/-- an image on the common voxel lattice of a 2-D superposition: position of its first row / column in voxel units
+(rows counted downwards from a reference line, i.e. along matrix axis 0), shape, values -/
+structure PlacedZ where
+  top : Int
+  left : Int
+  rows : Nat
+  cols : Nat
+  val : List Nat → Rat
+
+def minOf : List Int → Int
+  | [] => 0
+  | [x] => x
+  | x :: xs => min x (minOf xs)
+
+def maxOf : List Int → Int
+  | [] => 0
+  | [x] => x
+  | x :: xs => max x (maxOf xs)
+
+/-- `darsia.superpose`: the canvas spans the extremal corners of all images (origin = minimal x / maximal y, opposite
+corner = maximal x / minimal y), in voxel units: first row / column and shape -/
+structure Canvas where
+  top : Int
+  left : Int
+  shape : List Nat
+
+def canvasOf (imgs : List PlacedZ) : Canvas :=
+  let t := minOf (imgs.map (·.top))
+  let l := minOf (imgs.map (·.left))
+  let b := maxOf (imgs.map fun p => p.top + p.rows)
+  let r := maxOf (imgs.map fun p => p.left + p.cols)
+  { top := t, left := l, shape := [(b - t).toNat, (r - l).toNat] }
+
+/-- where an image lands on the canvas (`coordinatesystem.voxel(origin)` of the canvas) -/
+def onCanvas (c : Canvas) (p : PlacedZ) : Placed :=
+  { offset := [(p.top - c.top).toNat, (p.left - c.left).toNat], shape := [p.rows, p.cols], val := p.val }
+
 def superpose (imgs : List Placed) (idx : List Nat) : Rat :=
   (imgs.map fun p => p.at idx).foldr (· + ·) 0
 
@@ -154,6 +191,15 @@ def coarsenCodedLevels (orig : Nat) : Nat → Nat → (Nat → Rat) → Except E
     match coarsenCoded1 orig cur g with
     | .error e => .error e
     | .ok g' => coarsenCodedLevels orig l (halfUp cur) g'
+
+/-- `levels` coarsening steps as coded AFTER the `fix:` commit: every level uses its current extent
+(`coarsenCodedLevels` with a fixed `orig` describes the code before it) -/
+def coarsenLevels : Nat → Nat → (Nat → Rat) → Except Err (Nat × (Nat → Rat))
+  | 0, cur, g => .ok (cur, g)
+  | l + 1, cur, g =>
+    match coarsenCoded1 cur cur g with
+    | .error e => .error e
+    | .ok g' => coarsenLevels l (halfUp cur) g'
 
 /-- the ideal `levels`-fold pairwise averaging of an extent divisible by `2^levels` -/
 def coarsenIdeal : Nat → Nat → (Nat → Rat) → Nat × (Nat → Rat)
